@@ -68,6 +68,10 @@ func (d *DBFT[H]) checkPreCommit() {
 	}
 
 	d.preBlock = d.CreatePreBlock()
+	if d.preBlock == nil {
+		d.Logger.Warn("can't create PreBlock")
+		return
+	}
 
 	if !d.preBlockProcessed {
 		d.Logger.Info("processing PreBlock",
@@ -125,6 +129,10 @@ func (d *DBFT[H]) checkCommit() {
 	}
 
 	d.block = d.CreateBlock()
+	if d.block == nil {
+		d.Logger.Warn("can't create Block")
+		return
+	}
 	hash := d.block.Hash()
 
 	d.Logger.Info("approving block",
